@@ -124,6 +124,9 @@ class St(object):
     def assume(self, f):
         if z3.is_true(f):
             return
+        for g in self.pc[-40:]:
+            if g.eq(f):
+                return
         self.pc.append(f)
 
 
